@@ -145,16 +145,16 @@ def _sym_matrix(f):
     return M
 
 
-class Poison:
-    """an argument overwritten by a library call (overwrite_b=True): any later use raises"""
-
-    def __getattr__(self, name):
-        raise RuntimeError('use of an array after it was handed over with overwrite_b=True')
+from .symreal import PoisonUse, Poison, POISON      # noqa: E402,F401
 
 
 def cho_solve(c_and_lower, b, overwrite_b=False, **kw):
     c, lower = c_and_lower
-    b = np.asarray(b, dtype=object)
+    b_in = b
+    b = np.array(b, dtype=object)
+    if overwrite_b and isinstance(b_in, np.ndarray) and b_in.dtype == object and b_in.flags.writeable:
+        # LAPACK may or may not reuse the buffer: afterwards its content is unspecified
+        b_in[...] = POISON
     if isinstance(c, Factor) and getattr(c, '_lower', None) == bool(lower):
         M = _sym_matrix(c)
         x = np.dot(inv(M), b)
